@@ -706,6 +706,12 @@ impl Actor {
             }
         };
 
+        // Refuse whatever is still queued. The callers wait on the reply channels inside those
+        // actions, and dropping our receiver does not drop queued actions as long as a handle
+        // (e.g. the waiting caller's own) is alive: without this they would wait forever.
+        self.action_rx.close();
+        while self.action_rx.try_recv().is_ok() {}
+
         if let Err(cause) = self.store.flush() {
             warn!(?cause, "failed to flush store");
         }
